@@ -45,6 +45,7 @@ impl Ctx {
 }
 
 pub struct OneResult {
+    pub effective: Vec<u64>,
     /// per-run line for cross-build comparison (engine "profile")
     pub trace_line: Option<String>,
     pub violations: Vec<(Violation, Value)>,
@@ -57,7 +58,8 @@ pub fn run_one(engine: &str, seed: u64, ctx: &mut Ctx) -> OneResult {
     match engine {
         "world" => {
             let sc = world::generate(seed, &ctx.names);
-            let ex = world::execute(&sc, &mut ctx.iset, &ctx.names, Envelope::standard());
+            let mut ex = world::execute(&sc, &mut ctx.iset, &ctx.names, Envelope::standard());
+            let ex_effective = std::mem::take(&mut ex.effective);
             let mut violations = vec![];
             if !ex.violations.is_empty() {
                 // hand out the explicit form, so that minimisation and replay do
@@ -84,6 +86,7 @@ pub fn run_one(engine: &str, seed: u64, ctx: &mut Ctx) -> OneResult {
                     "stalls": sc.env.stalls, "p_extreme": sc.env.p_extreme, "p_spawn_fail": sc.env.p_spawn_fail}),
                 stats: ex.stats,
                 counts: ex.counts,
+                effective: ex_effective,
             }
         }
         "queues" => {
@@ -91,6 +94,7 @@ pub fn run_one(engine: &str, seed: u64, ctx: &mut Ctx) -> OneResult {
             let (vs, stats, sample) = queues::execute(&sc, &mut ctx.iset, &ctx.names);
             let scv = if vs.is_empty() { Value::Null } else { serde_json::to_value(&sc).unwrap() };
             OneResult {
+                effective: vec![],
                 trace_line: None,
                 violations: vs.into_iter().map(|v| (v, scv.clone())).collect(),
                 stats,
@@ -104,6 +108,7 @@ pub fn run_one(engine: &str, seed: u64, ctx: &mut Ctx) -> OneResult {
             let ex = entropy::execute(&sc, &ctx.names);
             let scv = if ex.violations.is_empty() { Value::Null } else { serde_json::to_value(&sc).unwrap() };
             OneResult {
+                effective: vec![],
                 trace_line: None,
                 violations: ex.violations.into_iter().map(|v| (v, scv.clone())).collect(),
                 sample: serde_json::json!({"case": sc.case, "streams": sc.streams, "p_extreme": sc.p_extreme, "p_repeat": sc.p_repeat}),
@@ -120,6 +125,7 @@ pub fn run_one(engine: &str, seed: u64, ctx: &mut Ctx) -> OneResult {
             let e = ctx.extra.entry("worst_cost_over_bound_permille".into()).or_insert(0);
             *e = (*e).max(r.worst_ratio_milli);
             OneResult {
+                effective: vec![],
                 trace_line: None,
                 violations: r.violations.into_iter().map(|v| (v, scv.clone())).collect(),
                 sample: serde_json::json!({"instruction": sc.instr, "int_layout": sc.int_layout, "float_layout": sc.float_layout, "magnitudes": sc.magnitudes}),
@@ -132,6 +138,7 @@ pub fn run_one(engine: &str, seed: u64, ctx: &mut Ctx) -> OneResult {
             let r = envelope::execute_growth(&sc, &mut ctx.iset, &ctx.names);
             let scv = if r.violations.is_empty() { Value::Null } else { serde_json::to_value(&sc).unwrap() };
             OneResult {
+                effective: vec![],
                 trace_line: None,
                 violations: r.violations.into_iter().map(|v| (v, scv.clone())).collect(),
                 sample: serde_json::json!({"program": sc.program_text.chars().take(300).collect::<String>()}),
@@ -144,6 +151,7 @@ pub fn run_one(engine: &str, seed: u64, ctx: &mut Ctx) -> OneResult {
             let ex = isolation::execute(&sc, &mut ctx.iset, &ctx.names);
             let scv = if ex.violations.is_empty() { Value::Null } else { serde_json::to_value(&sc).unwrap() };
             OneResult {
+                effective: vec![],
                 trace_line: None,
                 violations: ex.violations.into_iter().map(|v| (v, scv.clone())).collect(),
                 sample: serde_json::json!({"subject": sc.program_text.chars().take(240).collect::<String>(), "copies": sc.copies, "noise_tasks": sc.noise.len(),
@@ -155,6 +163,7 @@ pub fn run_one(engine: &str, seed: u64, ctx: &mut Ctx) -> OneResult {
         "profile" => {
             let (stats, line) = isolation::profile_run(seed, &mut ctx.iset, &ctx.names, ctx.twins);
             OneResult {
+                effective: vec![],
                 trace_line: Some(line.clone()),
                 violations: vec![],
                 sample: serde_json::json!({"line": line}),
@@ -168,6 +177,7 @@ pub fn run_one(engine: &str, seed: u64, ctx: &mut Ctx) -> OneResult {
             let (vs, stats, sample) = queues::execute(&sc, &mut ctx.iset, &ctx.names);
             let scv = if vs.is_empty() { Value::Null } else { serde_json::to_value(&sc).unwrap() };
             OneResult {
+                effective: vec![],
                 trace_line: None,
                 violations: vs.into_iter().map(|v| (v, scv.clone())).collect(),
                 stats,
@@ -179,6 +189,7 @@ pub fn run_one(engine: &str, seed: u64, ctx: &mut Ctx) -> OneResult {
             let sweep = if ctx.tier == "thorough" { 256 } else { 64 };
             let (stats, found, sample) = runloop::run_program(seed, &mut ctx.iset, &ctx.names, sweep);
             OneResult {
+                effective: vec![],
                 trace_line: None,
                 violations: found
                     .into_iter()
